@@ -727,6 +727,10 @@ class DivisionOperator(BinaryOperator):
         return self.element_1.named_arrayed
 
 class NumericalMultiplicationOperator(BinaryOperator):
+    @property
+    def el1_arrayed(self):
+        return isinstance(self.element_1, BPTK_Py.sddsl.element.Element) and self.element_1._elements.vector_size() > 0
+
     def term(self, time="t"):
         return self._grouped(self._term(time))
 
@@ -735,14 +739,18 @@ class NumericalMultiplicationOperator(BinaryOperator):
             if self.index == None:  # Can not resolve arrayed equations without index
                 return "0.0"
 
-            self.el1_arrayed = isinstance(
-                self.element_1, BPTK_Py.sddsl.element.Element) and self.element_1._elements.vector_size()
-
             if(self.el1_arrayed):
                 cur_el1 = self.element_1
                 for i in self.index:
                     cur_el1 = cur_el1[i]
                 return "({}) * ({})".format(str(self.element_2), cur_el1.term(time))
+
+            elif isinstance(self.element_2, BPTK_Py.sddsl.element.Element) and self.element_2._elements.vector_size():
+                # number * array (Element.__rmul__): the array is the second operand
+                cur_el2 = self.element_2
+                for i in self.index:
+                    cur_el2 = cur_el2[i]
+                return "({}) * ({})".format(cur_el2.term(time), self.element_1.term(time))
 
             else:
                 return "(" + str(self.element_2) + ") * (" + self.element_1.term(time) + ")"
